@@ -9,11 +9,13 @@ import (
 	"fmt"
 	"github.com/graphql-go/graphql/gqlerrors"
 	"math"
+	"sort"
 	"strconv"
 	"strings"
 	"sync"
 
 	"github.com/graphql-go/graphql"
+	"github.com/graphql-go/graphql/language/ast"
 
 	"verif/harness/gq"
 	"verif/harness/hx"
@@ -358,6 +360,47 @@ type Runtime struct {
 	shared  map[string]interface{} // list values handed out more than once (same slice)
 	TypeCtx []interface{}          // context tag seen by every ResolveType / IsTypeOf call (nil context = "<nil ctx>")
 	Mutate  bool                   // resolvers mutate the args map they receive (C20 aliasing probe)
+	// DocFrags: names of ALL fragment definitions of the request document (sorted), whichever operation is selected
+	// and whether or not that operation reaches them; HasDocFrags = the expectation is set. Every resolver,
+	// ResolveType and IsTypeOf call must find exactly these names in info.Fragments (C20: "the document's fragments").
+	DocFrags    []string
+	HasDocFrags bool
+	TypeInfoBad []string // what was wrong with the ResolveInfo of a ResolveType / IsTypeOf call
+}
+
+// SetDocFragments records the fragment definitions of the request document as the expected info.Fragments.
+func (rt *Runtime) SetDocFragments(names []string) {
+	rt.DocFrags = append([]string{}, names...)
+	sort.Strings(rt.DocFrags)
+	rt.HasDocFrags = true
+}
+
+// checkFragments: info.Fragments holds exactly the document's fragment definitions, each under its own name.
+func (rt *Runtime) checkFragments(info graphql.ResolveInfo) string {
+	if !rt.HasDocFrags {
+		return ""
+	}
+	got := make([]string, 0, len(info.Fragments))
+	for name, def := range info.Fragments {
+		got = append(got, name)
+		fd, ok := def.(*ast.FragmentDefinition)
+		if !ok || fd == nil || fd.Name == nil || fd.Name.Value != name {
+			return "Fragments[" + name + "] is not the fragment definition of that name"
+		}
+	}
+	sort.Strings(got)
+	if strings.Join(got, ",") != strings.Join(rt.DocFrags, ",") {
+		return fmt.Sprintf("Fragments=%v, the document defines %v", got, rt.DocFrags)
+	}
+	return ""
+}
+
+func (rt *Runtime) noteTypeInfo(who string, info graphql.ResolveInfo) {
+	if bad := rt.checkFragments(info); bad != "" {
+		rt.mu.Lock()
+		rt.TypeInfoBad = append(rt.TypeInfoBad, who+": "+bad)
+		rt.mu.Unlock()
+	}
 }
 
 type ctxKey struct{}
@@ -383,7 +426,7 @@ func NewRuntime(w *World, s *gq.SchemaDesc) *Runtime {
 
 func (rt *Runtime) Reset() {
 	rt.mu.Lock()
-	rt.Log, rt.TypeLog, rt.Seq, rt.TypeCtx = nil, nil, nil, nil
+	rt.Log, rt.TypeLog, rt.Seq, rt.TypeCtx, rt.TypeInfoBad = nil, nil, nil, nil, nil
 	rt.mu.Unlock()
 }
 
@@ -566,6 +609,9 @@ func (rt *Runtime) Hooks() gq.Hooks {
 					e.CtxTag = p.Context.Value(ctxKey{})
 				}
 				e.InfoOK = checkInfo(p, typeName, fieldName)
+				if e.InfoOK == "" {
+					e.InfoOK = rt.checkFragments(p.Info)
+				}
 				rt.mu.Lock()
 				rt.Log = append(rt.Log, e)
 				rt.Seq = append(rt.Seq, "call|"+seqPath(e.Path)+"|"+e.ParentType+"."+fieldName)
@@ -616,6 +662,7 @@ func (rt *Runtime) Hooks() gq.Hooks {
 		ResolveType: func(abstract string, objects map[string]*graphql.Object) graphql.ResolveTypeFn {
 			return func(p graphql.ResolveTypeParams) *graphql.Object {
 				rt.noteTypeCtx(p.Context)
+				rt.noteTypeInfo("ResolveType of "+abstract, p.Info)
 				o, ok := p.Value.(*wobj)
 				if !ok || o == nil {
 					return nil
@@ -634,6 +681,7 @@ func (rt *Runtime) Hooks() gq.Hooks {
 		IsTypeOf: func(objName string) graphql.IsTypeOfFn {
 			return func(p graphql.IsTypeOfParams) bool {
 				rt.noteTypeCtx(p.Context)
+				rt.noteTypeInfo("IsTypeOf of "+objName, p.Info)
 				o, ok := p.Value.(*wobj)
 				if !ok || o == nil {
 					return false
